@@ -77,6 +77,11 @@ CMDS = [
     ("distance-lg", "compute distance -i aagaps.fa -m lg", False),
     ("distance-jtt-rmgaps-gamma", "compute distance -i aagaps.fa -m jtt -r --alpha 0.8", False),
     ("distboot-lg", "build distboot -i aagaps.fa -n 2 -m lg -r -o dist.txt", True),
+    # compressed outputs: the container (gzip / xz header) is part of the bytes a user compares
+    ("revcomp-gz", "revcomp -i in.fa -o out.fa.gz", False),
+    ("distance-gz", "compute distance -i gaps.fa -m k2p -o dist.txt.gz", False),
+    ("reformat-phylip-xz", "reformat phylip -i in.fa -o out.phy.xz", False),
+    ("shuffle-seqs-gz", "shuffle seqs -i in.fa -o out.fa.gz", True),
 ]
 NAMES = [c[0] for c in CMDS]
 
@@ -175,6 +180,7 @@ def run_history(work, v, descriptors, tier):
             e = {"key": key, "out": dg, "kind": kind, "what": what}
             e.update(kw)
             f.write(json.dumps(e, separators=(",", ":")) + "\n")
+        lastsec = {}
         for d in descriptors:
             name, argstr, seeded = CMDS[d["cmd"] - 1]
             args = argstr.split() + ["-t", str(d["threads"])]
@@ -185,8 +191,12 @@ def run_history(work, v, descriptors, tier):
             elif d["seed"] != descriptors[0]["seed"] and d["rep"] > 1:
                 continue      # commands without randomness: the seed is not an input; fewer repetitions are enough
             procs = [None, 1, 4][(d["rep"] + d["threads"]) % 3]
-            if name == "seqboot-tar" and d["rep"] > 1:
-                time.sleep(1.05)      # archive members carry a time stamp with a resolution of one second
+            if (name == "seqboot-tar" or name.endswith("-gz") or name.endswith("-xz")) and d["rep"] > 1:
+                # archive members / compressed containers can carry a time stamp with a resolution of one second:
+                # the repetition runs in another second than the previous run of the same command
+                while int(time.time()) == lastsec.get(key, 0):
+                    time.sleep(0.05)
+            lastsec[key] = int(time.time())
             kind, dg, so, files, cwd = execute(work, binary, ind, args, name, procs)
             emit(key, kind, dg, " ".join(args), threads=d["threads"], rep=d["rep"], procs=procs or 0, files=files)
             if cwd:
